@@ -1033,6 +1033,17 @@ def trigger_scenarios(quick=False):
     t("waters-only:assign-only", dict({"item": "1AJJ.pdb", "window": [0, 1], "waters": 10},
                                       damage=[[0, "drop_backbone"], [0, "keep_backbone"]],
                                       argv=["--ff=PARSE", "--assign-only"]))
+    # a residue of which a single atom is left cannot be rebuilt (three anchors are needed)
+    # (whole 1AJJ, so that the loss stays far below the 10 % repair limit and the rejection
+    # really is "too few atoms present to reconstruct the residue")
+    WH = {"item": "1AJJ.pdb"}
+    t("residue-reduced-to-one-distal-atom:PHE-CZ", dict(WH, damage=[[6, "only_atom:CZ"]], argv=amber))
+    t("residue-reduced-to-one-distal-atom:LYS-NZ:nodebump-noopt",
+      dict(WH, damage=[[27, "only_atom:NZ"]], argv=["--ff=PARSE", "--nodebump", "--noopt"]))
+    t("residue-reduced-to-one-distal-atom:TRP-CH2", dict(WH, damage=[[18, "only_atom:CH2"]],
+                                                        argv=["--ff=CHARMM", "--drop-water"]))
+    t("residue-reduced-to-one-atom:C-terminal-ALA-CB", dict(WH, damage=[[36, "only_atom:CB"]],
+                                                          argv=amber))
     t("nan-coordinates-one-residue", dict(B14, damage=[[5, "coord:nan"]], argv=amber))
     t("nan-coordinates-one-residue:nodebump-noopt",
       dict(B14, damage=[[5, "coord:nan"]], argv=["--ff=PARSE", "--nodebump", "--noopt"]))
